@@ -33,6 +33,14 @@ class Pre:
         O["w"] = h.vertex("w")
         self.O = O
         self.alias = alias_v_is_u
+        if getattr(h, "aux", None):
+            # the tree keeps auxiliary state (a member index, ...): the same memberships, reached through Universe.add_vertex in order
+            for o, u in mem:
+                oo = "u" if (o == "v" and alias_v_is_u) else o
+                h.call(h.I.getattr(O[u], "add_vertex"), O[oo])
+            h.settle()
+            self.pre = self.project()
+            return
         uni_members = {"u": [], "u2": []}
         obj_unis = {"v": [], "w": [], "u": [], "u2": []}
         for o, u in mem:
@@ -120,6 +128,7 @@ def run(ctx):
     common.identity_model(ctx)
     common.own_rule(ctx, ["Universe._vertices", "BaseObject._universes"])
     h = H(ctx.src)
+    common.aux_state(h, res)
     I = h.I
     n = 0
     for vcls, alias, segs in [(c, a, True) for c, a in (("Vertex", False), ("SymVert", False), ("Universe", False), ("Universe", True))] + [("Vertex", False, False), ("Universe", False, False), ("Universe", True, False)]:
